@@ -9,8 +9,8 @@ CLAIM = dict(
          'checking in every state that the Cramer/Leibniz solution satisfies the intermediate system, that no pivot is zero, that |multipliers| <= 1, that both machines end in the Cramer solution and agree, and that P*A = L*U; '
          '(ii) emits every such system as a case that the real solve_basic and solve_lu solve on Matrix<Rat> (result must equal the model solution), Matrix<f64> and Matrix<Cmplx>; '
          '(iii) validates recorded calls of the real code for n = 1..8 (dense, sparse, permuted triangular, graded 2^+-20, scaled 2^+-332, zero / 2^-20 / 2^-40 / 2^-57 / 2^-997 leading pivots forcing an exchange with a chosen row at every elimination step): '
-         'plus (hardening) right-hand sides with exact zeros (zero vector, every unit vector e_k, leading zeros, a column / row of A) on systems that exchange rows at every step, pivots of modulus exactly 1 (+-1, +-i, (3+4i)/5) with non-zero entries below, exactly identity / unit triangular / elementary / permutation / diagonal matrices, uniform scaling 2^+-60 / 2^+-200 / 2^+-400 / 2^+-500 (complex: up to 2^+-332, the range of the textbook division of Complex<f64>), balanced row / column grading 2^+-60..2^+-400 whose pivot products under/overflow although the determinant is O(1), one tiny column / row, and SEQUENCES on one Matrix object (determinant()/inverse() called and discarded, solves on clones with two right-hand sides, then each of 21 mutators, then the solves again - judged against the entries the object holds at that moment); a Rat event is accepted iff len(x) = n and A*x = b exactly (cross-multiplied in TLC) and both solvers returned the same vector; a float event iff its backward error, measured in double-double, is <= 8 n^3 2^(n-1) units of eps (x8 complex), the a-priori bound of GEPP.',
-    note='Exact over Rat (decided by TLC on integers). For f64/Complex the residual is measured by the harness in double-double arithmetic and logged as integer units; the bound is an a-priori theorem (Higham Thm 9.5, growth <= 2^(n-1)) with a constant factor > 5, so a correct GEPP cannot be rejected, while an ineffective exchange on a tiny pivot gives >= 1e8 units. '
+         'plus (hardening) right-hand sides with exact zeros (zero vector, every unit vector e_k, leading zeros, a column / row of A) on systems that exchange rows at every step, pivots of modulus exactly 1 (+-1, +-i, (3+4i)/5) with non-zero entries below, exactly identity / unit triangular / elementary / permutation / diagonal matrices, uniform scaling 2^+-60 / 2^+-200 / 2^+-400 / 2^+-500 (complex: up to 2^+-332, the range of the textbook division of Complex<f64>), balanced row / column grading 2^+-60..2^+-400 whose pivot products under/overflow although the determinant is O(1), one tiny column / row, ill-conditioned nonsingular systems for n = 3..8 without any conditioning limit (Hilbert, Lotkin, Cauchy, Vandermonde on clustered nodes, scaled Pascal, nearly parallel rows/columns u v^T + 2^-20..2^-45 B, prescribed singular values 1..1e-8/1e-10/1e-12/1e-14 built as Q1 D Q2 with Householder reflectors; each with b = A x_true for an O(1) x_true and with a random b; entries encoded exactly as mantissa * 2^e; nonsingularity certified by double-double elimination), and SEQUENCES on one Matrix object (determinant()/inverse() called and discarded, solves on clones with two right-hand sides, then each of 21 mutators, then the solves again - judged against the entries the object holds at that moment); a Rat event is accepted iff len(x) = n and A*x = b exactly (cross-multiplied in TLC) and both solvers returned the same vector; a float event iff its backward error, measured in double-double, is <= 8 n^3 2^(n-1) units of eps (x8 complex), the a-priori bound of GEPP.',
+    note='Exact over Rat (decided by TLC on integers). For f64/Complex the residual is measured by the harness in double-double arithmetic and logged as integer units; the bound is an a-priori theorem (Higham Thm 9.5, growth <= 2^(n-1)) with a constant factor > 5, so a correct GEPP cannot be rejected whatever cond(A) is (a method that is only forward stable, e.g. x = inverse(A) * b, exceeds the guard by orders of magnitude on the ill-conditioned families with b = A x_true), while an ineffective exchange on a tiny pivot gives >= 1e8 units. '
          'The pivot rule itself is not demanded of the implementation (any rule that solves exactly / backward-stably is accepted). Generated systems are provably nonsingular (determinant nonzero modulo 2^31-1); a panic of either solver on such a system is a violation. Trusted: TLC, harness projections, dd.rs.',
     design='4 (C01)')
 
@@ -38,6 +38,6 @@ def check(ctx):
     ctx.notes.append('worst float MILLI-units observed (guard in units: 8 n^3 2^(n-1), x8 complex, x2 for agree): %s' % dict(sorted(worst.items())))
     return ctx.finish(
         rule='cases: (i) every nonsingular (A, b) of the TLC scope on Rat, every 2nd/3rd also on f64 and Complex (A + iA\'), (ii) seeded systems n = 1..8 in families dense / sparse / permuted triangular / 20-bit dense / graded / scaled / zero-or-tiny leading pivot at step s with exchange partner r, '
-             'for Rat, f64, Complex, (iii) special right-hand sides x exchange-at-every-step / unit-pivot / exactly structured matrices, (iv) extreme uniform scalings, balanced gradings, tiny column / row (floats), (v) 21 mutator sequences on one object. Each case = solve_basic, solve_lu (each on its own clone) and their agreement. Non-trivial: n >= 2. Distinct = distinct (call, element type, operand hash, outcome).',
+             'for Rat, f64, Complex, (iii) special right-hand sides x exchange-at-every-step / unit-pivot / exactly structured matrices, (iv) extreme uniform scalings, balanced gradings, tiny column / row (floats), (v) 21 mutator sequences on one object, (vi) ill-conditioned families (cond up to 1e14) with b = A x_true and random b. Each case = solve_basic, solve_lu (each on its own clone) and their agreement. Non-trivial: n >= 2. Distinct = distinct (call, element type, operand hash, outcome).',
         trusted=['TLC', 'harness/src/suites/gauss.rs projections and double-double residuals (harness/src/dd.rs)', 'Gauss.tla definitions (Leibniz determinant, Cramer) as the reference'],
         extra=dict(worst_float_milliunits=worst))
